@@ -45,6 +45,12 @@ CHECKS = {
  'C15': ('vt', 'bounded-exhaustive enumeration of probe programs per decorator option, differential between the options-decorator form and the direct forms, under a virtual-time event loop',
          'For every option of the three decorators (singly and jointly) all probe programs of <= 3 calls over a gap grid are run on @deco(opt=v), deco(func, opt=v) and the class; full virtual-time logs must be identical and must differ from the default configuration (sensitivity check, else the check fails as vacuous); a decorated batcher is driven from 1..3 successive loops (closed / kept open).',
          'virtual clock; loops used one after another here (concurrent loops: engine B).', '3/C15'),
+ 'C16': ('tx', 'stateless model checking of the implementation: exhaustive thread-interleaving exploration (producer thread vs consuming loop/thread) with iterative preemption bounding',
+         'All sources of length 0..4 (thorough 6) over falsy/duplicate values as list / range / generator / iterator (to_async_iter) and async generator (to_sync_iter, loop=None and a given loop), failure at every position or none, producer step durations and consumer pauses {0, D}; every interleaving with <= 2-3 (thorough 3-4) preemptions of the producer thread lines with the consumer; oracle: sequence == source prefix then StopIteration or the same exception instance, a ticker task keeps ticking while the producer sleeps, no helper thread alive at the end.',
+         'one aiuti source line / stdlib call atomic, with explicit scheduling points where the pool worker returns and resolves its future.', '3/C16'),
+ 'C17': ('tx', 'stateless model checking of the implementation: exhaustive thread-interleaving exploration with bounded preemptions and bounded non-default switches at blocking points; deadlock detector',
+         'Worlds: target loop idle / running via loop_in_thread / own / closed; 1..3 caller threads doing ensure_aw or run_aw_threadsafe with coroutine / Future / Task awaitables that return, raise, sleep {0, D} on the target; loop_in_thread racing ensure_aw on a fresh loop; owner stopping early; every schedule with <= 1 (thorough 2) preemptions and <= 1 (thorough 2) non-default choices at blocking points; oracle: identical result/exception object, evaluated on the target loop, never two runners of one loop, loop_in_thread/stop post-conditions, every caller completes (deadlock detector). One known finding (ensure_aw stranded on a loop borrowed by another ensure_aw) is listed in known_findings.json.',
+         '5-7 controlled threads per world make unbounded free switches infeasible: the second bound is reported; awaitables stranded because the OWNER stopped the loop are not judged.', '3/C17'),
  'C18': ('sq', 'exhaustive DFS over all pull interleavings of the two result iterators against a list-comprehension reference',
          'All sources of length 0..4 (thorough 6) over a 3-value domain as list / one-shot iterator x all truth-table callables, stateful callables, boolean lists/iterators shorter/equal/longer x EVERY interleaving of next() on the two results; each prefix compared with the reference partition, predicate call log and source pull count; exhaust() too.',
          'sequential code; stateless search re-builds fresh objects per path.', '3/C18'),
